@@ -145,6 +145,25 @@ def c07_cases(seed, tier):
                           "layout": [1] if typ == "I" else [0, 1], "table": [["5"] if typ == "I" else ["5", "5"]], "echo": 0,
                           "wdefault": 0, "faults": [], "max": 1000, "seed": seed & 0xFFFFFFFF,
                           "c07": {"w": w, "vals": vals, "typ": typ}})
+    # one header column bound to TWO signals of different widths: an input literally named B_out (width w2) and
+    # the expected side of a bidirectional B (width w): each value is reduced to the width of the signal it is bound to
+    for w in (1, 3, 8, 16, 31, 33, 63, 64):
+        for w2 in (1, 4, 17, 64):
+            if w == w2:
+                continue
+            sigs = [{"name": "B", "typ": "B", "bits": w, "default": "0"}, {"name": "B_out", "typ": "I", "bits": w2, "default": "0"},
+                    {"name": "Q", "typ": "O", "bits": 8, "default": "-"}]
+            lines = ["B B_out Q"] + ["0 %s 0" % lit64(v) for v in vals[:20]]
+            cases.append({"id": "c07-dual-%d-%d" % (w, w2), "kind": "run", "src": "\n".join(lines) + "\n", "sigs": sigs, "layout": [0, 2],
+                          "table": [["1", "1"]], "echo": 0, "wdefault": 0, "faults": [], "max": 1000, "seed": 1,
+                          "c07dual": {"w": w, "w2": w2, "vals": vals[:20]}})
+    # `signals` is a public field of TestCase: a width changed after binding is the width of the signal from then on
+    for w, w2 in ((8, 4), (4, 8), (16, 64), (64, 1), (1, 63)):
+        sigs = [{"name": "A", "typ": "I", "bits": w, "default": "0"}, {"name": "Q", "typ": "O", "bits": w, "default": "-"}]
+        lines = ["A Q"] + ["%s %s" % (lit64(v), lit64(v)) for v in vals[:20]]
+        cases.append({"id": "c07-rebits-%d-%d" % (w, w2), "kind": "run", "src": "\n".join(lines) + "\n", "sigs": sigs, "layout": [1],
+                      "table": [["1"]], "echo": 0, "wdefault": 0, "faults": [], "max": 1000, "seed": 1, "rebits": [(0, w2), (1, w2)],
+                      "c07": {"w": w2, "vals": vals[:20], "typ": "I", "norow_z": True}})
     return cases
 
 
@@ -154,8 +173,9 @@ def c07_oracle(case, trace):
         return
     w = info["w"]
     rows = rows_of(trace)
-    if len(rows) != len(info["vals"]) + 1:
-        yield "expected %d rows, got %d" % (len(info["vals"]) + 1, len(rows))
+    extra = 0 if info.get("norow_z") else 1
+    if len(rows) != len(info["vals"]) + extra:
+        yield "expected %d rows, got %d" % (len(info["vals"]) + extra, len(rows))
         return
     for v, (line, ins, outs, _) in zip(info["vals"], rows):
         want = to_i64(v % (1 << w))
@@ -167,11 +187,32 @@ def c07_oracle(case, trace):
                 yield "width %d: expected value of %s for program value %d is %s, expected %d" % (w, nm_, v, exp, want)
             if nm_ == "V" and exp != str(v):
                 yield "virtual signal (64 bits): expected value for program value %d is %s" % (v, exp)
+    if info.get("norow_z"):
+        return
     line, ins, outs, _ = rows[-1]
     if not any(nm_ == "A" and val == "Z" for nm_, val, _ in ins):
         yield "Z on the input path did not pass through unchanged"
     if not all(exp == "X" for nm_, _, exp, _, _ in outs if nm_ in ("Q", "V")):
         yield "X on the expected path did not pass through unchanged"
+
+
+def c07_dual_oracle(case, trace):
+    info = case.get("c07dual")
+    if not info:
+        return
+    rows = rows_of(trace)
+    if len(rows) != len(info["vals"]):
+        yield "expected %d rows, got %d" % (len(info["vals"]), len(rows))
+        return
+    for v, (line, ins, outs, _) in zip(info["vals"], rows):
+        wi = to_i64(v % (1 << info["w2"]))
+        we = to_i64(v % (1 << info["w"]))
+        for nm_, val, _ in ins:
+            if nm_ == "B_out" and val != str(wi):
+                yield "input B_out (%d bits) for program value %d is %s, expected %d" % (info["w2"], v, val, wi)
+        for nm_, _, exp, _, _ in outs:
+            if nm_ == "B" and exp != str(we):
+                yield "expected value of bidirectional B (%d bits) for program value %d is %s, expected %d" % (info["w"], v, exp, we)
 
 
 PROPS = {}
@@ -180,7 +221,7 @@ PROPS["C07"] = {
     "cases": c07_cases,
     "tags": RUN_TAGS,
     "nontrivial": nontrivial_rows(2),
-    "oracles": [c07_oracle, no_panic_oracle],
+    "oracles": [c07_oracle, c07_dual_oracle, no_panic_oracle],
     "release": True,
     "rule": "exhaustive over widths 1..64 x {input, bidirectional} signal; per width one row per boundary value (27 fixed 64-bit boundary "
             "values + seeded random i64) on the input path, the expected path and a 64-bit virtual signal, plus a Z/X row; "
@@ -393,11 +434,13 @@ PROPS["C02"] = {
 }
 
 PROPS["C04"] = {
-    "cases": run_family("c04", 500, 20000, [
+    "cases": run_family("c04", 600, 20000, [
         {"reads": 0.9, "echo": 1.0, "pC": 0.2, "maxdepth": 3, "shadow_out": 0.3, "pZXread": 0.08, "drop_read": 0.1},
         {"reads": 0.7, "echo": 1.0, "pC": 0.1, "pX": 0.1, "maxdepth": 3, "declare": 0.2, "wlet": 0.3},
+        {"reads": 0.9, "echo": 1.0, "maxdepth": 3, "shadow_out": 0.7, "wlet": 0.4, "scope_names": 0.8, "dead_names": 0.4, "drop_read": 0.3},
+        {"reads": 0.8, "echo": 1.0, "maxdepth": 2, "shadow_out": 0.6, "wlet": 0.3, "declare": 1.0, "pZX": 0.25, "pZXread": 0.0, "cont": 1.0, "wrow": 0.5},
     ]),
-    "tags": RUN_TAGS,
+    "tags": RUN_TAGS + ("READS",),
     "nontrivial": nontrivial_rows(2),
     "oracles": [no_panic_oracle],
     "rule": "seeded programs reading outputs in row entries, lets, loop bounds and while conditions; drivers whose answers depend on call index AND on the inputs received (echo), "
@@ -663,9 +706,11 @@ PROPS["C17"] = {
 # ------------------------------------------------------------------ C11: signal lists that do / do not fit
 
 def c11_cases(seed, tier):
-    base = run_family("c11", 600 if tier == "quick" else 30000, 0, [
+    base = run_family("c11", 800 if tier == "quick" else 30000, 0, [
         {"n_bidir": 1, "pC": 0.25, "reads": 0.6, "declare": 0.3, "maxdepth": 2, "shadow_out": 0.3},
         {"n_bidir": 2, "pC": 0.15, "reads": 0.4, "declare": 0.2, "maxdepth": 3, "odd_names": True},
+        {"n_bidir": 2, "pC": 0.1, "pC_out": 0.06, "reads": 0.3, "maxdepth": 2, "pbits": 0.15, "full_header": True},
+        {"n_bidir": 1, "pC": 0.1, "reads": 0.7, "scope_names": 0.8, "dead_names": 0.5, "shadow_out": 0.5, "maxdepth": 3, "wlet": 0.3},
     ])(seed, "quick")
     rng = random.Random(seed ^ 0xC11)
     for c in base:
@@ -845,8 +890,9 @@ PROPS["C14"] = {
     "cases": run_family("c14", 500, 20000, [
         {"declare": 1.0, "wrow": 0.3, "wlet": 0.25, "reads": 0.6, "shadow_out": 0.5, "pZX": 0.12, "pZXread": 0.05, "echo": 1.0, "maxdepth": 2, "pC": 0.1},
         {"declare": 0.8, "reads": 0.4, "shadow_out": 0.6, "pZX": 0.05, "maxdepth": 3, "pX": 0.1},
+        {"declare": 1.0, "reads": 0.7, "shadow_out": 0.7, "pZX": 0.3, "pZXread": 0.0, "maxdepth": 2, "wlet": 0.35, "cont": 1.0, "echo": 1.0},
     ]),
-    "tags": RUN_TAGS,
+    "tags": RUN_TAGS + ("VARS",),
     "nontrivial": lambda c, t: "declare" in c.get("src", "") and any(x == "ROW" for x, _ in t),
     "oracles": [no_panic_oracle],
     "rule": "seeded programs with 1-3 declare statements at random positions (top, inside loops, after rows), expressions over output-capable signals and over names that are also program variables (let Q = ...), "
@@ -864,6 +910,7 @@ PROPS["C10"] = {
         {"div": True, "small": False, "reads": 0.3, "n_bidir": 2, "pC": 0.2, "pX": 0.2, "wide": True, "odd_names": True},
         {"div": True, "small": True, "reads": 0.6, "shadow_out": 0.4, "maxdepth": 4, "drop_read": 0.1},
     ]), ["err", "drop", "add", "dup", "swap", "subst"], 0.3, cont=0.5),
+    "extra_cases": "c08-table",
     "tags": RUN_TAGS,
     "nontrivial": nontrivial_rows(1),
     "oracles": [no_panic_oracle],
@@ -1209,3 +1256,111 @@ for _p in ("C09", "C10", "C11"):
 from families_c16 import PROP_C16  # noqa: E402
 PROPS["C16"] = PROP_C16
 PROPS["C16"]["audits"] = ["panic"]
+
+
+# C10 also runs the operator boundary table of C08 (every operator on every pair of 64-bit boundary values)
+_c10_base = PROPS["C10"]["cases"]
+PROPS["C10"]["cases"] = lambda seed, tier: _c10_base(seed, tier) + [dict(c, id="c10-" + c["id"]) for c in c08_cases(seed, tier) if "tab" in c["id"] or "zero" in c["id"]]
+
+
+# ------------------------------------------------------------------ C15: determinism
+
+def c15_cases(seed, tier):
+    n = 140 if tier == "quick" else 6000
+    cases = []
+    for i in range(n):
+        s = (seed * 2654435761 + i * 97) & 0x7FFFFFFF
+        prof = [{"declare": 0.6, "reads": 0.0, "random": 0.0, "maxdepth": 3, "pC": 0.15, "pX": 0.1, "wlet": 0.25},
+                {"declare": 0.5, "reads": 0.5, "random": 0.0, "maxdepth": 2, "pC": 0.1, "echo": 1.0},
+                {"declare": 0.0, "reads": 0.0, "random": 0.0, "maxdepth": 4, "pC": 0.1, "pX": 0.15, "wlet": 0.3, "pbits": 0.1}][i % 3]
+        base = gen.gen_run_case("c15-%d" % i, s, prof)
+        base["wdefault"] = 0
+        base["faults"] = []
+        run = dict(base, id="c15-%d-run" % i, kind="run")
+        cases.append(run)
+        cases.append(dict(base, id="c15-%d-reparse" % i, kind="reparse", niter=16, group=run["id"], no_model=True))
+        # the same test with a different driver (other values, other layout order): static iteration must not care
+        rng = random.Random(s ^ 0x5747)
+        other = dict(base, id="c15-%d-run2" % i, kind="run", group=run["id"])
+        other["table"] = [[str(rng.randrange(0, 250)) if v not in ("Z", "X") else v for v in row] for row in base["table"]] + [[str(rng.randrange(0, 9)) for _ in base["layout"]]]
+        other["echo"] = 1 - base["echo"]
+        cases.append(other)
+        cases.append(dict(base, id="c15-%d-static" % i, kind="static", group=run["id"]))
+        k = rng.randrange(2, 5)
+        cases.append(dict(base, id="c15-%d-multi" % i, kind="multi", niter=k, sched=[rng.randrange(0, k) for _ in range(rng.randrange(3, 40))], group=run["id"], no_model=True))
+    return cases
+
+
+def static_view(row):
+    """(line, inputs, [(signal, expected)]) of a ROW or SROW line"""
+    parts = row.split(" | ")
+    outs = []
+    for w in parts[2].split():
+        f = w.split(":")
+        if len(f) >= 5:
+            outs.append((":".join(f[:-4]), f[-3]))
+        elif len(f) >= 2:
+            outs.append((":".join(f[:-1]), f[-1]))
+    return (parts[0].strip(), parts[1].strip(), tuple(outs))
+
+
+def c15_pair_oracle(cases, impl):
+    byid = {c["id"]: c for c in cases}
+    for c in cases:
+        g = c.get("group")
+        t = impl.get(c["id"]) or []
+        if c["kind"] == "reparse":
+            for tag, r in t:
+                if tag in ("REPARSE", "REBIND") and not r.startswith("same"):
+                    yield c, "parsing the same text %d times gives different results (%s %s)" % (c.get("niter", 0), tag, r)
+        if not g or g not in byid:
+            continue
+        solo = impl.get(g) or []
+        solo_rows = [r for tag, r in solo if tag == "ROW"]
+        if c["kind"] == "multi":
+            # each interleaved iterator (own driver, same script) yields what the solo run yields
+            cur = None
+            per = {}
+            for tag, r in t:
+                if tag == "ITER":
+                    cur = r.strip()
+                    per[cur] = []
+                elif tag == "ROW" and cur is not None:
+                    per[cur].append(r)
+            for k, rows in per.items():
+                if rows != solo_rows[:len(rows)] or (len(rows) < len(solo_rows) and not any(tag == "END" and r.startswith("limit") for tag, r in solo)
+                                                       and len(rows) < min(len(solo_rows), c.get("max", 200))):
+                    yield c, "iterator %s of %d interleaved iterators yields different rows than the same iterator run alone" % (k, c.get("niter", 0))
+                    break
+        if c["kind"] == "static":
+            st = [r for tag, r in t if tag == "STATIC"]
+            reads = [r for tag, r in solo if tag == "READS"]
+            if st and reads:
+                if st[0].startswith("ok") != (reads[0].strip() == ""):
+                    yield c, "try_iter_static is %s but the program reads outputs [%s]" % (st[0], reads[0].strip())
+                    continue
+            if st and st[0].startswith("ok"):
+                srows = [static_view(r) for tag, r in t if tag == "SROW"]
+                for other_id in (g, g[:-3] + "run2"):
+                    drows = [static_view(r) for tag, r in (impl.get(other_id) or []) if tag == "ROW"]
+                    if drows != srows[:len(drows)]:
+                        yield c, "static iteration differs from the dynamic run %s (inputs / expected values / lines)" % other_id
+                        break
+
+
+PROPS["C15"] = {
+    "cases": c15_cases,
+    "tags": ("PARSE", "BIND", "STATIC", "NEW", "ROW", "SROW", "ITEM", "END"),
+    "nontrivial": lambda c, t: any(x in ("ROW", "SROW", "REPARSE", "ITER") for x, _ in t),
+    "oracles": [no_panic_oracle],
+    "pair_oracles": [c15_pair_oracle],
+    "audits": ["state"],
+    "rule": "per seeded program five cases: a dynamic run; the same text parsed 16 times in one process and compared with == (ParsedTestCase, bound TestCase, order of signals) - programs with 2-3 declare statements "
+            "over-represented; a second dynamic run with a different driver (other values, echo flipped); try_iter_static; 2-4 iterators over ONE TestCase advanced by a seeded schedule, each with its own driver. "
+            "Oracles: reparse equal; every interleaved iterator yields the rows of the solo run; static succeeds iff READS is empty; static rows = (inputs, expected, line) of both dynamic runs. The model is compared on the run and static cases",
+    "proved": "parse is independent of HashMap iteration order (any three permutations before the sort give the same result; recorded span starts strictly increasing); next() depends on the driver only through the answer to its one call, n calls only "
+              "through the answers along the run; try_iter_static Ok iff no reads, its expect/index/unreachable are dead; static iteration previews every dynamic run item by item when no identifier falls through to a device output",
+    "validated_only": "that the code shares no state between iterators (ownership + tools/state_audit.py + interleaved runs: 'schedules' is partial by construction); std HashMap randomisation is exercised by 16 parses per text, not modelled",
+    "assumptions": ["Parser.v / Iter.v / Static.v model the crate (checked by this run)", "iterators own their state (audited syntactically)"],
+    "trusted_base": [],
+}
